@@ -981,6 +981,12 @@ bool Builder::FinishCommand(BuildResult::CommandCompleted& result,
     return plan_.EdgeFinished(edge, Plan::kEdgeFailed, err);
   }
 
+  // The command succeeded: delete its response file now, whatever may still
+  // stop the build while its completion is being processed below.
+  string rspfile = edge->GetUnescapedRspfile();
+  if (!rspfile.empty() && !g_keep_rsp && !config_.dry_run)
+    disk_interface_->RemoveFile(rspfile);
+
   // Restat the edge outputs
   TimeStamp record_mtime = 0;
   if (!config_.dry_run) {
@@ -1019,11 +1025,6 @@ bool Builder::FinishCommand(BuildResult::CommandCompleted& result,
 
   if (!plan_.EdgeFinished(edge, Plan::kEdgeSucceeded, err))
     return false;
-
-  // Delete any left over response file.
-  string rspfile = edge->GetUnescapedRspfile();
-  if (!rspfile.empty() && !g_keep_rsp && !config_.dry_run)
-    disk_interface_->RemoveFile(rspfile);
 
   // Record the dependencies before the command: if ninja dies between the two
   // appends, the next build finds no valid record of this command and runs it
